@@ -698,7 +698,22 @@ func (x *exec) opCompressed() {
 		snaps = append(snaps, x.snapshot("compressed", obj))
 	}
 	x.res.OpNames = append(x.res.OpNames, fmt.Sprintf("compressed n=%d", len(refs)))
-	if x.fail("WriteCompressed", x.w.WriteCompressed(refs, objs...)) {
+	if x.r.WrongLength && len(refs) > 0 && x.t.Bool(lbl+".badgen", 1, 12) {
+		// an invalid request: object streams hold generation-0 objects only.
+		// The Writer has to refuse it (or store the object so that it reads
+		// back under the reference it was given)
+		i := x.t.Draw(lbl+".badgen.i", len(refs))
+		bad := pdf.NewReference(refs[i].Number(), uint16(tape.Pick(x.t, lbl+".badgen.g", 1, 2, 65534)))
+		x.free = append(x.free, refs[i])
+		refs[i] = bad
+		x.all = append(x.all, bad)
+		if err := x.w.WriteCompressed(refs, objs...); err != nil {
+			x.res.Probes["WriteCompressed with a non-zero generation refused"]++
+			x.res.Err, x.res.ErrOp, x.res.ExpectedReject = err, "WriteCompressed (non-zero generation)", true
+			return
+		}
+		x.res.Probes["WriteCompressed with a non-zero generation accepted"]++
+	} else if x.fail("WriteCompressed", x.w.WriteCompressed(refs, objs...)) {
 		return
 	}
 	x.res.Probes["WriteCompressed"]++
